@@ -232,7 +232,7 @@ func init() { Registry["C19"] = runC19 }
 
 func runC19(ctx Ctx) int {
 	run := ev.NewRun("C19")
-	run.Rule = "A: full product of issuer strings = scheme(10) x separator(5) x userinfo(4) x host(10) x port(5) x path(7) x query(8) x fragment(4) x insecure(2) against the real StaticIssuer factory (and NewProvider for every accepted string), judged by the RFC 3986 appendix-B component regex; B: full product of configured path(4) x insecure(2) x request Host(3) x 15 Forwarded header shapes x 3 issuer modes x header placement(3) x request path(2) x X-Forwarded-Proto(2), observed on IssuerFromRequest and on the entityID of the served metadata, judged with an own RFC 7239 reading"
+	run.Rule = "A: full product of issuer strings = scheme(10) x separator(5) x userinfo(4) x host(10) x port(5) x path(7) x query(8) x fragment(4) x insecure(2) against the real StaticIssuer factory (and NewProvider for every accepted string), judged by the RFC 3986 appendix-B component regex; B: full product of configured path(10, incl. percent-escapes, //-prefixed and scheme-like paths) x insecure(2) x request Host(3) x 15 Forwarded header shapes x 3 issuer modes x header placement(3) x request path(2) x X-Forwarded-Proto(2), observed on IssuerFromRequest and on the entityID of the served metadata, judged with an own RFC 7239 reading"
 	run.Assume = []string{"a bare '?' or '#' with nothing after it is not counted as query / fragment", "for syntactically malformed Forwarded values either host choice is accepted; the structure (scheme and path never from the request) is always enforced"}
 	if ctx.Replay != "" {
 		var rp c19Replay
@@ -332,7 +332,7 @@ func runC19(ctx Ctx) int {
 	})
 	// B: derivation
 	var dcases []c19DCase
-	for _, path := range []string{"", "/p", "p", "/a/b/"} {
+	for _, path := range []string{"", "/p", "p", "/a/b/", "/t%2Fx/saml", "/my%20idp", "//saml/v2", "idp:saml", "/q?x=1", "/f#frag"} {
 		for _, ins := range []bool{false, true} {
 			for _, host := range []string{"idp.example", "idp.example:8443", "[::1]:8080"} {
 				for h := range c19Headers {
